@@ -57,8 +57,11 @@ class interp1d:
     symbolic abscissae or query points are handled with if-then-else chains."""
 
     def __init__(self, x, y, kind='linear', copy=True, bounds_error=None, fill_value=float('nan'), assume_sorted=False, axis=-1):
-        if kind != 'linear':
-            raise SymxUnsupported(f"interp1d(kind={kind!r}) is not modelled (spline fitting is behind scipy)")
+        self.kind = kind
+        if kind not in ('linear', 'slinear', 'quadratic', 'cubic'):
+            raise SymxUnsupported(f"interp1d(kind={kind!r}) is not modelled")
+        if kind in ('quadratic', 'cubic') and is_sym(x) and try_concrete(to_sarr(x)) is None:
+            raise SymxUnsupported(f"interp1d(kind={kind!r}) with symbolic abscissae (the spline weights are realised with the real scipy on a concrete grid)")
         if not (is_sym(x) or is_sym(y) or is_sym(fill_value)):
             self.real = _scipy.interpolate.interp1d(x, y, kind=kind, copy=copy, bounds_error=bounds_error, fill_value=fill_value, assume_sorted=assume_sorted)
         else:
@@ -72,8 +75,30 @@ class interp1d:
         self.fill = fill_value
         self.bounds_error = bounds_error
 
+    def _spline_one(self, q):
+        """spline kinds are linear in the ordinates: weights = the real scipy interpolant of the unit vectors at the concrete point"""
+        from .core import SNum
+        if isinstance(q, SNum):
+            qc = q.const()
+            if qc is None:
+                raise SymxUnsupported('spline interp1d at a symbolic query point')
+            q = float(qc)
+        xs = [float(v.const()) if isinstance(v, SNum) else float(v) for v in self.x]
+        if q < xs[0] or q > xs[-1]:
+            return self.fill
+        acc = 0
+        for k in range(len(xs)):
+            e = rnp.zeros(len(xs))
+            e[k] = 1.0
+            w = float(_scipy.interpolate.interp1d(xs, e, kind=self.kind, bounds_error=False, fill_value=0.0)(q))
+            if w != 0.0:
+                acc = acc + self.y[k] * w
+        return acc
+
     def _one(self, q):
         from .core import ite, as_num, SNum
+        if self.kind in ('quadratic', 'cubic'):
+            return self._spline_one(q)
         x, y = self.x, self.y
         sym_geo = isinstance(q, SNum) or any(isinstance(v, SNum) for v in x)
         fill = self.fill
